@@ -56,6 +56,7 @@ func successEdges(f *ssa.Function, isCall func(*ssa.Call) bool) []core.Edge {
 		if c, isC := errv.(*ssa.Const); isC && c.IsNil() {
 			errv = bo.Y
 		}
+		errv = unspill(errv)
 		var call *ssa.Call
 		switch x := errv.(type) {
 		case *ssa.Call:
@@ -68,6 +69,35 @@ func successEdges(f *ssa.Function, isCall func(*ssa.Call) bool) []core.Edge {
 		}
 	}
 	return out
+}
+
+// unspill: a load of a local cell (a named result or captured variable) is
+// replaced by the value most recently stored to it earlier in the same block.
+func unspill(v ssa.Value) ssa.Value {
+	u, ok := v.(*ssa.UnOp)
+	if !ok || u.Op != token.MUL {
+		return v
+	}
+	if _, isA := u.X.(*ssa.Alloc); !isA {
+		return v
+	}
+	var last ssa.Value
+	for _, in := range u.Block().Instrs {
+		if in == ssa.Instruction(u) {
+			break
+		}
+		if st, ok := in.(*ssa.Store); ok && st.Addr == u.X {
+			last = st.Val
+		}
+		// a call may run a closure that writes the cell
+		if _, isCall := in.(ssa.CallInstruction); isCall {
+			last = nil
+		}
+	}
+	if last != nil {
+		return last
+	}
+	return v
 }
 
 func checkC09(c *core.Ctx, l *core.Ledger) {
